@@ -329,8 +329,63 @@ def replay_stochastic(ctx, jb, option, script, ss, draws, case):
                 return
 
 
+def source_scenarios(ctx):
+    """a flagged entry still drives its surroundings, on the real engines: (a) diffusion source — a chemostated cell full of
+    molecules next to an empty free cell must fill it; (b) reactant — a chemostated species converts into a free product.
+    The flagged species sits at a random species index; grid and graph; all three engines."""
+    import strengths as st
+    rng = ctx.rng
+    for kind in ("grid", "graph"):
+        for option in ("euler", "tauleap", "gillespie"):
+            for scen in ("source", "reactant"):
+                ns = rng.choice([2, 3])
+                labels = L.LABELS[:ns]
+                f = rng.randrange(ns)                 # index of the flagged species
+                p = (f + 1) % ns                      # product species (reactant scenario)
+                species = [{"label": lab, "D": (1.0 if scen == "source" else 0.0), "density": 0} for lab in labels]
+                net = {"species": species, "reactions": []}
+                if scen == "reactant":
+                    net["reactions"] = [{"eq": "%s -> %s" % (labels[f], labels[p]), "k+": 1.0}]
+                if kind == "grid":
+                    space = {"type": "grid", "w": 2, "h": 1, "d": 1}
+                else:
+                    space = {"type": "graph", "nodes": [{}, {}], "edges": [{"nodes": [0, 1]}]}
+                desc = {"network": net, "space": space}
+                system = L.build_system(desc)
+                n = 2
+                x = [0.0] * (ns * n)
+                x[f * n + 0] = 1000.0
+                system.state = x
+                system.reset_chemostats()
+                system.set_chemostat(f, 0, 1)
+                if scen == "reactant":
+                    system.set_chemostat(f, 1, 1)
+                chem = [int(v) for v in system.chemostats]
+                nsteps = {"euler": 6, "tauleap": 8, "gillespie": 300}[option]
+                seed = rng.randrange(1, 2 ** 31 - 1)
+                case = {"kind": "scenario", "scenario": scen, "space": kind, "option": option, "ns": ns, "flagged": f, "product": p, "nsteps": nsteps, "seed": seed}
+                try:
+                    script, traj, _ = run_engine(system, option, L.DEFAULT_SYS, Fraction(1, 16), nsteps, seed, False)
+                except Exception as ex:  # noqa
+                    ctx.violation("chem-scenario:raises", "%s run raised %s" % (option, type(ex).__name__), case, impl=type(ex).__name__)
+                    continue
+                ss = engine_io.samples(traj)
+                last = ss[-1][1]
+                target = (f * n + 1) if scen == "source" else (p * n + 0)
+                ctx.case(("scenario", kind, option, scen, ns, f), nontrivial=True,
+                         sample={"op": "scenario", "scenario": scen, "engine": option, "space": kind, "first": ss[0][1], "last": last})
+                ctx.count("scenario_" + scen)
+                if any(ss[k][1][e] != ss[0][1][e] for k in range(len(ss)) for e in range(ns * n) if chem[e]):
+                    ctx.violation("chem-traj:" + option, "%s: a chemostated entry changed in the %s scenario" % (option, scen), case, impl=last, expected=ss[0][1])
+                elif not last[target] > 0:
+                    what = ("the free cell next to a chemostated cell holding 1000 molecules (D = 1) is still empty after %d iterations: the flagged entry does not act as a diffusion source"
+                            if scen == "source" else "the product of a chemostated reactant (1000 molecules, k = 1) is still 0 after %d iterations: the flagged entry does not act as a reactant") % (len(ss) - 1)
+                    ctx.violation("chem-source:%s:%s" % (option, kind), "%s on a %s: %s" % (option, kind, what), case, impl=last, expected="entry %d > 0" % target)
+
+
 def run(ctx):
     rng = ctx.rng
+    source_scenarios(ctx)
     nsys = ctx.n(36, 500)
     jobs = []
     for k in range(nsys):
@@ -357,8 +412,32 @@ def process(ctx, jobs):
     check_trajectories(ctx, jobs, replay_steps=True)
 
 
+def replay_scenario(case):
+    ns, f, p, scen, kind, option = case["ns"], case["flagged"], case["product"], case["scenario"], case["space"], case["option"]
+    labels = L.LABELS[:ns]
+    species = [{"label": lab, "D": (1.0 if scen == "source" else 0.0), "density": 0} for lab in labels]
+    net = {"species": species, "reactions": [{"eq": "%s -> %s" % (labels[f], labels[p]), "k+": 1.0}] if scen == "reactant" else []}
+    space = {"type": "grid", "w": 2, "h": 1, "d": 1} if kind == "grid" else {"type": "graph", "nodes": [{}, {}], "edges": [{"nodes": [0, 1]}]}
+    system = L.build_system({"network": net, "space": space})
+    x = [0.0] * (ns * 2)
+    x[f * 2] = 1000.0
+    system.state = x
+    system.reset_chemostats()
+    system.set_chemostat(f, 0, 1)
+    if scen == "reactant":
+        system.set_chemostat(f, 1, 1)
+    chem = [int(v) for v in system.chemostats]
+    script, traj, _ = run_engine(system, option, L.DEFAULT_SYS, Fraction(1, 16), case["nsteps"], case["seed"], False)
+    ss = engine_io.samples(traj)
+    target = (f * 2 + 1) if scen == "source" else (p * 2)
+    ok = all(ss[k][1][e] == ss[0][1][e] for k in range(len(ss)) for e in range(ns * 2) if chem[e]) and ss[-1][1][target] > 0
+    return ok, {"first": ss[0][1], "last": ss[-1][1], "chem": chem, "must_be_positive": target}
+
+
 def replay(ctx, rec):
     case = rec.get("case", rec)
+    if case["kind"] == "scenario":
+        return replay_scenario(case)
     phys, system = restore(case)
     chem = [int(v) for v in system.chemostats]
     n, ns = phys["n"], phys["ns"]
